@@ -110,13 +110,12 @@ class HashFileDB(ObjectDB):
         oid_cache_paths = {o: self.oid_to_path(o) for o in oids}
         for o, cache_path in oid_cache_paths.items():
             try:
-                if verify and not check_exists:
-                    # overwrite mode may have rewritten an existing protected
-                    # object in place (e.g. linking an empty file truncates the
-                    # destination): hash it, do not let it be trusted by mode
+                if verify:
+                    # hash it, do not let it be trusted by its mode: a linked
+                    # object carries the mode of its source, and overwrite mode
+                    # may have rewritten an existing protected object in place
+                    # (linking an empty file truncates the destination)
                     HashFileDB.check(self, o, check_hash=True)
-                elif verify:
-                    self.check(o, check_hash=True)
                 self.protect(cache_path)
             except ObjectFormatError as exc:
                 # the object failed verification and has been removed by
